@@ -128,14 +128,14 @@ func (rs *reqState) decodeResponse(resp Response) *clientView {
 		if !rs.method.ServerS {
 			// single message, the whole body; when the handler failed the body
 			// also holds the error rendering, which has no framing to split on
-			if rs.hlog.Returned && rs.hlog.RetCode != 0 {
+			if rs.log().Returned && rs.log().RetCode != 0 {
 				cv.Trailing = body
-				for i := 0; i < rs.hlog.Sent; i++ {
+				for i := 0; i < rs.log().Sent; i++ {
 					cv.Msgs = append(cv.Msgs, rs.method.mkResp(payloadFor(sp.ID, i, 'S', sp.Handler.Resps[i]))) // not judged
 				}
 				return cv
 			}
-			if resp.Status == 200 && len(body) > 0 || resp.Status == 200 && rs.hlog.Sent > 0 {
+			if resp.Status == 200 && len(body) > 0 || resp.Status == 200 && rs.log().Sent > 0 {
 				if sp.Codec == "body" || rs.method.Key == "files" {
 					cv.Raw = append(cv.Raw, body)
 				} else {
